@@ -445,7 +445,7 @@ def r1_4(ctx, R):
             kind = "empty-arm" if empty_ok else ("self-wake" if wake_ok else "NONE")
             ctx.ob("R1.4", d, "pending-return#%d" % pending_assign_blocks(d).index(pb), empty_ok or wake_ok, d.loc(pb),
                    "justification: %s" % kind)
-    ctx.floor("R1.4", "pending-returns-in-drain", n, 3)
+    ctx.floor("R1.4", "pending-returns-in-drain", n, 2)
     return n
 
 
